@@ -104,7 +104,7 @@ def run_check(pid, tier, replay=None):
             inner = "{ %s }" % ", ".join(rng.sample(INNER_LIST[:-1], 2) + INNER_LIST[-1:])
             plan = [(2, 2, 6, inner), (1, 3, 1, None)]
         else:
-            plan = [(2, 2, 3, None), (3, 1, 100, None), (1, 3, 1, None)]
+            plan = [(2, 2, 8, None), (3, 1, 300, None), (1, 3, 1, None)]   # (sampling raised with the number of leaf kinds: 14 kinds, explicit zero values)
         for i, (mf, ml, sample, inner) in enumerate(plan):
             d = scratch.sub("st%d" % i)
             write_model(d, mf, ml, sample, inner=inner)
